@@ -683,6 +683,10 @@ func contains(l []int, x int) bool {
 // ---------------------------------------------------------------------------------------------
 
 func main() {
+	if os.Getenv("C20_RESOLVE") != "" {
+		resolveChildMain()
+		return
+	}
 	if path := os.Getenv("C20_WORKER"); path != "" {
 		workerMain(path)
 		return
@@ -1350,6 +1354,9 @@ func main() {
 		}
 	}
 	o.Extra["chain_runs"] = chainN
+
+	// ===== 7b. contact points through the driver's own resolution =================================
+	contactPointCases(o, p, approvedBy, plainToken, okClass)
 
 	// ===== 8. session creation through the public constructor and the real connection pool ======
 	sessionRuns(o, p, okClass, badClass, plainToken)
